@@ -142,6 +142,7 @@ func (ex *Exec) verifyFunction(fn *ssa.Function, con *Contract) (rep *FuncReport
 	ex.curBlk = nil
 	ex.inputs = nil
 	ex.private = nil
+	ex.privMaps = nil
 	ex.pureSeen = map[string]bool{}
 	st := &State{reach: True(), cells: map[*ssa.Alloc]Val{}, heap: newHeap("")}
 	var args []Val
